@@ -308,6 +308,13 @@ impl Fixtures {
             sc.push((format!("ignore-list-{n}"), format!(
                 "{{\"version\":3,\"sources\":[\"a.js\",\"b.js\"],\"names\":[],\"mappings\":\"AAAA,CCAA\",\"ignoreList\":[{}]}}",
                 list(n, &|k| format!("{}", (k * 7919) % 200_003)))));
+            // one large embedded text on the last of three sources, and very many tokens on it:
+            // work per token that is proportional to the text (a copy, a scan) becomes minutes
+            let n = 200_000usize;
+            let big: String = "function f(a, b) { return a + b; } // line of a larger bundle\\n".chars().cycle().take(4 * 1024 * 1024 / 62 * 62).collect();
+            sc.push((format!("contents-4m-x-{n}-tokens"), format!(
+                "{{\"version\":3,\"sources\":[\"a.js\",\"b.js\",\"c.js\"],\"sourcesContent\":[null,null,\"{big}\"],\"names\":[\"f\"],\"mappings\":\"{}\"}}",
+                toks(n, "AEAAA", "CAACA"))));
             for (name, text) in sc {
                 scale.push(maps.len());
                 maps.push(Doc { bytes: Arc::new(text.into_bytes()), label: format!("inline:scale-{name}"), kind: DocKind::Inline });
